@@ -83,7 +83,6 @@ func (r *rig) runSession(plan *sessPlan, remoteView *mchain) (*session, *outcome
 	tk := time.NewTicker(driverTick)
 	defer tk.Stop()
 	idle, last := 0, atomic.LoadInt64(&r.activity)
-	lastTick := time.Now()
 loop:
 	for {
 		select {
@@ -91,11 +90,7 @@ loop:
 			o.notified++
 			o.err = err
 			break loop
-		case now := <-tk.C:
-			if now.Sub(lastTick) > driverTick+disturbLimit {
-				o.disturbed = true
-			}
-			lastTick = now
+		case <-tk.C:
 			act, pend := atomic.LoadInt64(&r.activity), atomic.LoadInt64(&r.pending)
 			if act == last && pend == 0 {
 				idle++
@@ -136,9 +131,6 @@ loop:
 func (r *rig) endSession(s *session) {
 	r.mu.Lock()
 	s.ended = true
-	if s.maxLag > disturbLimit {
-		// recorded for the timing guard
-	}
 	r.mu.Unlock()
 }
 
@@ -246,6 +238,7 @@ func (r *rig) evalSession(res *scResult, s *session, o *outcome, mustSucceed boo
 		if o.actorDead {
 			// keyed by the call site at which the actor goroutine is blocked, whatever scenario class led there
 			site := blockedSite(o.dump, fmt.Sprintf("%p", r.syn))
+			res.count("actor blocked in "+site+" (class "+sc.Class+tag+")", 1)
 			res.Viols = append(res.Viols, viol{Key: "C17/actor-blocked/" + site, Case: sc, Desc: r.describeSession(s, o,
 				fmt.Sprintf("no final notification and the syncer actor no longer processes its mailbox: it is blocked in %s (nothing emitted, no reply outstanding for %d driver ticks of %v)", site, stallTicks, driverTick))})
 			return
@@ -526,32 +519,44 @@ func childMain(args []string) {
 	var mu sync.Mutex
 	var quiet []*Scenario
 	w := bufio.NewWriter(out)
-	ch := make(chan *Scenario)
-	var wg sync.WaitGroup
-	for i := 0; i < workers; i++ {
-		wg.Add(1)
-		go func() {
-			defer wg.Done()
-			for sc := range ch {
-				res, again := runScenario(sc)
-				mu.Lock()
-				if again {
-					quiet = append(quiet, sc)
-				} else {
-					j, _ := json.Marshal(res)
-					w.Write(j)
-					w.WriteByte('\n')
-					w.Flush()
-				}
-				mu.Unlock()
-			}
-		}()
-	}
+	// Phase 1: regular classes in parallel.  Phase 2: suspect classes (they stall by design, and every
+	// stall takes a stop-the-world goroutine dump that would delay the replies of unrelated scenarios).
+	var phases [2][]*Scenario
 	for _, sc := range list {
-		ch <- sc
+		if isSuspect(sc.Class) {
+			phases[1] = append(phases[1], sc)
+		} else {
+			phases[0] = append(phases[0], sc)
+		}
 	}
-	close(ch)
-	wg.Wait()
+	for _, part := range phases {
+		ch := make(chan *Scenario)
+		var wg sync.WaitGroup
+		for i := 0; i < workers; i++ {
+			wg.Add(1)
+			go func() {
+				defer wg.Done()
+				for sc := range ch {
+					res, again := runScenario(sc)
+					mu.Lock()
+					if again {
+						quiet = append(quiet, sc)
+					} else {
+						j, _ := json.Marshal(res)
+						w.Write(j)
+						w.WriteByte('\n')
+						w.Flush()
+					}
+					mu.Unlock()
+				}
+			}()
+		}
+		for _, sc := range part {
+			ch <- sc
+		}
+		close(ch)
+		wg.Wait()
+	}
 	for _, sc := range quiet { // one at a time, nothing else running in this process
 		j, _ := json.Marshal(runQuiet(sc))
 		w.Write(j)
@@ -748,6 +753,17 @@ func raceSite(rep string) string {
 	return strings.Join(fns, "+")
 }
 
+var naturalBlocked []interface{}
+
+func isSuspect(class string) bool {
+	for _, s := range suspectClasses {
+		if s == class {
+			return true
+		}
+	}
+	return false
+}
+
 func merge(c *vf.Ctx, res *scResult) {
 	c.Eval(res.Evals)
 	for _, k := range res.Nontrivial {
@@ -763,6 +779,11 @@ func merge(c *vf.Ctx, res *scResult) {
 		c.Sample(res.Sample)
 	}
 	for _, v := range res.Viols {
+		if strings.HasPrefix(v.Key, "C17/actor-blocked/") && !isSuspect(v.Case.Class) && len(naturalBlocked) < 4 {
+			// the same call site reached without any scripted duplicate / at-timeout reply: keep an example
+			naturalBlocked = append(naturalBlocked, map[string]interface{}{"key": v.Key, "scenario": v.Case, "history": truncate(v.Desc, 2500)})
+			c.Set("actor_blocked_in_regular_classes_examples", naturalBlocked)
+		}
 		c.Violation(v.Key, v.Desc, v.Case)
 	}
 	for _, s := range res.Inconclusive {
